@@ -383,6 +383,184 @@ fn csystem_case(n: usize, gi: usize, tol: f64, max_iter: usize, exact_jac: bool,
 }
 
 // ------------------------------------------------------------------------------------------------------
+// E2: histories of configuration changes and solves on ONE Newton object (rebuilt by replaying the history): every solve
+// must equal, bit for bit, the solve of a freshly constructed object with the model's configuration
+#[derive(Clone, Debug, PartialEq)]
+enum NAct {
+    Tol(usize),
+    Delta(usize),
+    Iter(usize),
+    Guess(usize),
+    Solve(usize),
+    SolveVec(usize),
+}
+const NTOLS: [f64; 2] = [1e-6, 1e-11];
+const NDELTAS: [f64; 2] = [1e-6, 1e-9];
+const NITERS: [usize; 3] = [0, 2, 25];
+const NGUESS: [f64; 3] = [1.5, -2.0, 0.25];
+fn nfun(k: usize, x: f64) -> f64 {
+    match k {
+        0 => x * x - 2.0,
+        1 => x * x * x - x - 1.0,
+        _ => x * x + 1.0, // root-free
+    }
+}
+fn nvec(k: usize, v: &Vec64) -> Vec64 {
+    match k {
+        0 => Vector::create(vec![v[0] * v[0] + v[1] - 3.0, v[0] - v[1] * 0.5]),
+        _ => Vector::create(vec![3.0 * v[0] + v[1].sin() - 1.0, v[0] * 0.25 - 2.0 * v[1] + 0.5]),
+    }
+}
+#[derive(Clone)]
+struct NSt {
+    hist: Vec<NAct>,
+    cfg: (usize, usize, usize, usize), // indices into the tables; usize::MAX = constructor default
+    solves: usize,
+}
+fn res_bits(r: &Result<f64, f64>) -> (bool, u64) {
+    match r {
+        Ok(v) => (true, v.to_bits()),
+        Err(v) => (false, v.to_bits()),
+    }
+}
+fn resv_bits(r: &Result<Vec64, Vec64>) -> (bool, Vec<u64>) {
+    match r {
+        Ok(v) => (true, v.vec.iter().map(|x| x.to_bits()).collect()),
+        Err(v) => (false, v.vec.iter().map(|x| x.to_bits()).collect()),
+    }
+}
+impl NSt {
+    fn guess_val(&self) -> f64 {
+        if self.cfg.3 == usize::MAX { 1.0 } else { NGUESS[self.cfg.3] }
+    }
+    fn apply_cfg(&self, s: &mut Newton<f64>, v: &mut Newton<Vec64>) {
+        if self.cfg.0 != usize::MAX {
+            s.tolerance(NTOLS[self.cfg.0]);
+            v.tolerance(NTOLS[self.cfg.0]);
+        }
+        if self.cfg.1 != usize::MAX {
+            s.delta(NDELTAS[self.cfg.1]);
+            v.delta(NDELTAS[self.cfg.1]);
+        }
+        if self.cfg.2 != usize::MAX {
+            s.iterations(NITERS[self.cfg.2]);
+            v.iterations(NITERS[self.cfg.2]);
+        }
+    }
+    /// the two real objects after the whole history (setters and earlier solves included)
+    fn build(&self) -> (Newton<f64>, Newton<Vec64>) {
+        let mut s = Newton::<f64>::new(1.0);
+        let mut v = Newton::<Vec64>::new(Vector::create(vec![1.0, 1.0]));
+        for a in &self.hist {
+            match a {
+                NAct::Tol(i) => {
+                    s.tolerance(NTOLS[*i]);
+                    v.tolerance(NTOLS[*i]);
+                }
+                NAct::Delta(i) => {
+                    s.delta(NDELTAS[*i]);
+                    v.delta(NDELTAS[*i]);
+                }
+                NAct::Iter(i) => {
+                    s.iterations(NITERS[*i]);
+                    v.iterations(NITERS[*i]);
+                }
+                NAct::Guess(i) => {
+                    s.guess(NGUESS[*i]);
+                    v.guess(Vector::create(vec![NGUESS[*i], 1.0 - NGUESS[*i]]));
+                }
+                NAct::Solve(k) => {
+                    let _ = catch(|| s.solve(&|x| nfun(*k, x)));
+                }
+                NAct::SolveVec(k) => {
+                    let _ = catch(|| v.solve(&|x: Vec64| nvec(*k, &x)));
+                }
+            }
+        }
+        (s, v)
+    }
+    fn fresh(&self) -> (Newton<f64>, Newton<Vec64>) {
+        let g = self.guess_val();
+        let mut s = Newton::<f64>::new(g);
+        let mut v = Newton::<Vec64>::new(if self.cfg.3 == usize::MAX { Vector::create(vec![1.0, 1.0]) } else { Vector::create(vec![g, 1.0 - g]) });
+        self.apply_cfg(&mut s, &mut v);
+        (s, v)
+    }
+}
+impl mc::bfs::Sut for NSt {
+    type Act = NAct;
+    fn key(&self) -> mc::bfs::Key {
+        vec![self.cfg.0 as i128, self.cfg.1 as i128, self.cfg.2 as i128, self.cfg.3 as i128, self.solves.min(2) as i128]
+    }
+    fn actions(&self) -> Vec<NAct> {
+        let mut a = vec![NAct::Solve(0), NAct::Solve(1), NAct::Solve(2), NAct::SolveVec(0), NAct::SolveVec(1)];
+        for i in 0..NTOLS.len() {
+            a.push(NAct::Tol(i));
+        }
+        for i in 0..NDELTAS.len() {
+            a.push(NAct::Delta(i));
+        }
+        for i in 0..NITERS.len() {
+            a.push(NAct::Iter(i));
+        }
+        for i in 0..NGUESS.len() {
+            a.push(NAct::Guess(i));
+        }
+        a
+    }
+    fn step(&mut self, a: &NAct, hits: &mut Vec<&'static str>) -> Result<(), String> {
+        match a {
+            NAct::Tol(i) => self.cfg.0 = *i,
+            NAct::Delta(i) => self.cfg.1 = *i,
+            NAct::Iter(i) => self.cfg.2 = *i,
+            NAct::Guess(i) => self.cfg.3 = *i,
+            NAct::Solve(_) | NAct::SolveVec(_) => {
+                if self.solves >= 1 {
+                    hits.push("solve after an earlier solve on the same object");
+                }
+                self.solves += 1;
+            }
+        }
+        self.hist.push(a.clone());
+        self.check()
+    }
+    fn check(&self) -> Result<(), String> {
+        let (s, v) = self.build();
+        let (fs, fv) = self.fresh();
+        let p = s.parameters();
+        let q = fs.parameters();
+        ensure!(p.0 == q.0 && p.1 == q.1 && p.2 == q.2 && p.3.to_bits() == q.3.to_bits(), "parameters() = {:?} after the history, a fresh object with the same configuration has {:?}", p, q);
+        for k in 0..3 {
+            let r1 = catch(|| s.solve(&|x| nfun(k, x)));
+            let r2 = catch(|| fs.solve(&|x| nfun(k, x)));
+            match (r1, r2) {
+                (Ok(a), Ok(b)) => ensure!(res_bits(&a) == res_bits(&b), "scalar solve #{} after the history gives {:?}, a fresh object with the same configuration {:?}", k, a, b),
+                (Err(_), Err(_)) => {}
+                (a, b) => return Err(format!("scalar solve #{}: {:?} vs fresh {:?}", k, a.map(|_| ()), b.map(|_| ()))),
+            }
+        }
+        for k in 0..2 {
+            let r1 = catch(|| v.solve(&|x: Vec64| nvec(k, &x)));
+            let r2 = catch(|| fv.solve(&|x: Vec64| nvec(k, &x)));
+            match (r1, r2) {
+                (Ok(a), Ok(b)) => ensure!(resv_bits(&a) == resv_bits(&b), "system solve #{} after the history gives {:?}, a fresh object with the same configuration {:?}", k, a, b),
+                (Err(_), Err(_)) => {}
+                (a, b) => return Err(format!("system solve #{}: {:?} vs fresh {:?}", k, a.map(|_| ()), b.map(|_| ()))),
+            }
+        }
+        Ok(())
+    }
+    fn classes(&self, hits: &mut Vec<&'static str>) {
+        if self.cfg.2 != usize::MAX && NITERS[self.cfg.2] == 0 {
+            hits.push("configuration with max_iter = 0");
+        }
+    }
+    fn show(&self) -> String {
+        format!("{:?}", self.hist)
+    }
+}
+
+// ------------------------------------------------------------------------------------------------------
 // E4: answer-script exploration of the termination half
 #[derive(Clone, Copy, PartialEq, Debug)]
 enum Entry {
@@ -682,7 +860,7 @@ fn main() {
     ctx.assume("basins are computed conservatively from |f'(r)|/(2 max|f''|); a counting closure panics beyond 4x the evaluation bound so that an unbounded loop is reported, not waited for");
     ctx.threshold("scalar_root_error_over_bound", 1.0);
     ctx.threshold("system_root_error_over_bound", 1.0);
-    ctx.require(&["Ok answers", "Err answers", "guess at the basin edge", "systems of dimension >= 3"]);
+    ctx.require(&["Ok answers", "Err answers", "guess at the basin edge", "systems of dimension >= 3", "solve after an earlier solve on the same object", "configuration with max_iter = 0"]);
     let fm = fams();
     let nf = fm.len() as u64;
     let per = (TS.len() * TOLS.len() * ITERS.len() * 2) as u64;
@@ -895,6 +1073,11 @@ fn main() {
             }
             ctx.push_space(s, st.viols);
         }
+    }
+    {
+        let depth = ctx.pick(4, 6);
+        let inits = vec![NSt { hist: vec![], cfg: (usize::MAX, usize::MAX, usize::MAX, usize::MAX), solves: 0 }];
+        mc::bfs::explore(&ctx, "configuration / solve histories on one Newton object", inits, mc::bfs::BfsOpts { max_depth: depth, state_cap: ctx.pick(200_000, 2_000_000) });
     }
     std::process::exit(ctx.finish());
 }
